@@ -21,7 +21,9 @@ type Op struct {
 	C     int    `json:"c,omitempty"`
 }
 
-func (o Op) String() string { return fmt.Sprintf("%s(f=%d v=%#x a=%d b=%d c=%d)", o.Kind, o.Field, o.Value, o.A, o.B, o.C) }
+func (o Op) String() string {
+	return fmt.Sprintf("%s(f=%d v=%#x a=%d b=%d c=%d)", o.Kind, o.Field, o.Value, o.A, o.B, o.C)
+}
 
 // HostileValues returns the boundary values tried for a field of width n bytes
 // whose current value is cur; remaining = bytes after the field in the file.
